@@ -6,15 +6,17 @@ name=${1:-san}
 tree=/verif/build/$name
 common="-fno-omit-frame-pointer -DOPM_COMMON_VERIF -Wno-error -pipe -fopenmp -pthread"
 case $name in
-  san) flags="-O1 -g0 -fsanitize=address,undefined -fno-sanitize-recover=undefined -ftrivial-auto-var-init=zero $common" ;;
-  pat) flags="-O1 -g0 -fsanitize=address,undefined -fno-sanitize-recover=undefined -ftrivial-auto-var-init=pattern $common" ;;
+  san) flags="-O1 -g0 -fsanitize=address,undefined -fno-sanitize=nonnull-attribute -fno-sanitize-recover=undefined -ftrivial-auto-var-init=zero $common" ;;
+  pat) flags="-O1 -g0 -fsanitize=address,undefined -fno-sanitize=nonnull-attribute -fno-sanitize-recover=undefined -ftrivial-auto-var-init=pattern $common" ;;
   opt) flags="-O2 -g0 -ftrivial-auto-var-init=zero $common" ;;
   *) echo "unknown tree $name" >&2; exit 2 ;;
 esac
-if [ ! -f $tree/build.ninja ]; then
+# (nonnull-attribute is off: libstdc++ itself calls memmove(dst, nullptr, 0) when an empty vector range is inserted - legal user code)
+if [ ! -f $tree/build.ninja ] || [ "$(cat $tree/.verif_flags 2>/dev/null)" != "$flags" ]; then
   mkdir -p $tree
   cmake -S /repo -B $tree -G Ninja -DCMAKE_BUILD_TYPE=None -DBUILD_TESTING=OFF \
       -DBUILD_EXAMPLES=OFF -DOPM_ENABLE_PYTHON=OFF -DUSE_MPI=OFF -DCMAKE_PREFIX_PATH=/root/miniconda \
       -DCMAKE_CXX_FLAGS="$flags" > $tree.configure.log 2>&1 || { tail -30 $tree.configure.log; exit 2; }
+  echo "$flags" > $tree/.verif_flags
 fi
 ninja -C $tree opmcommon > $tree.build.log 2>&1 || { tail -40 $tree.build.log; exit 2; }
